@@ -1,6 +1,7 @@
 package checks
 
 import (
+	"fmt"
 	"runtime"
 	"runtime/debug"
 	"testing"
@@ -16,9 +17,18 @@ import (
 type c18Case struct {
 	TV
 	Cell string `json:"cell,omitempty"`
+	// First: how the type is used for the first time, before the pointer calls that are measured:
+	// 0 by pointer, 1 by value (size and encode), 2 by decoding into it, 3 nested inside a wrapper type
+	First int `json:"first,omitempty"`
 }
 
 func genC18(t *rapid.T) c18Case {
+	c := genC18Inner(t)
+	c.First = rapid.SampledFrom([]int{0, 0, 1, 1, 2, 3}).Draw(t, "firstuse")
+	return c
+}
+
+func genC18Inner(t *rapid.T) c18Case {
 	if rapid.IntRange(0, 3).Draw(t, "table") > 0 {
 		tv, cell := genTableTV(t)
 		return c18Case{TV: tv, Cell: cell}
@@ -76,6 +86,29 @@ func (r *c18Runner) run(c c18Case) *Failure {
 	b := core.Bind(c.S)
 	src := b.NewValue(c.V)
 	pv := src.Interface()
+	switch c.First {
+	case 1:
+		bv := src.Elem().Interface()
+		if _, f := encodeExact(bv); f != nil {
+			return f
+		}
+	case 2:
+		if _, _, f := fDecode(core.RefEncode(c.S, c.V), newDest(b).Interface()); f != nil {
+			return f
+		}
+	case 3:
+		wt := &core.TypeSpec{Kind: core.KStruct, Ptr: true}
+		if c.S.Name != "" && core.LookupSpec(c.S.Name) == c.S {
+			wt.Ref = c.S.Name
+		} else {
+			wt.Struct = c.S
+		}
+		ws := &core.StructSpec{Fields: []*core.FieldSpec{{Name: "Wrapped_1", ID: 1, Req: core.Optional, Type: wt}}}
+		if _, f := encodeExact(core.Bind(ws).New().Interface()); f != nil {
+			return f
+		}
+	}
+	r.w.label(fmt.Sprintf("first-use:%d", c.First))
 	s, f := fSize(pv)
 	if f != nil {
 		return f
